@@ -184,6 +184,8 @@ package quickfix
 //@ spec fmvals(m *FieldMap) bool = forall t Tag :: has(m.tagLookup, t) ==> len(m.tagLookup[t]) >= 1
 //@ spec fmkeys(m *FieldMap) bool = forall t Tag :: has(m.tagLookup, t) ==> m.tagLookup[t][0].tag == t
 //@ spec fmorder(m *FieldMap) bool = forall t Tag :: tagcount(m, t) == (has(m.tagLookup, t) ? 1 : 0)
+// fmsafe: what memory safety of the accessors needs; fmwf adds the order-list agreement (what serialisation needs)
+//@ spec fmsafe(m *FieldMap) bool = m.tagLookup != nil && m.rwLock != nil && fmvals(m)
 //@ spec fmwf(m *FieldMap) bool = m.tagLookup != nil && m.rwLock != nil && fmvals(m) && fmorder(m)
 
 //@ lemma cntTag_ext [C10]: induction n: forall n int, r1 introw, p1 int, r2 introw, p2 int, t Tag :: (forall j :: p1 <= j && j < p1+n ==> rowat(r1, j) == rowat(r2, j-p1+p2)) ==> cntTag(r1, p1, n, t) == cntTag(r2, p2, n, t)
@@ -199,14 +201,14 @@ package quickfix
 //@   modifies m.*
 
 //@ func (m *FieldMap) getOrCreate [C09,C10]
-//@   requires fmwf(m)
+//@   requires fmsafe(m)
 //@   modifies m.tags, m.tags[*], m.tagLookup[*], fresh H.quickfix.TagValue.*, fresh E.quickfix.Tag
 //@   ensures @present has(m.tagLookup, tag)
 //@   ensures @result len(result) == 1 && result == m.tagLookup[tag][:1]
 //@   ensures @len len(m.tagLookup[tag]) >= 1 && (!old(has(m.tagLookup, tag)) ==> len(m.tagLookup[tag]) == 1) && (old(has(m.tagLookup, tag)) ==> m.tagLookup[tag] == old(m.tagLookup[tag]))
 //@   ensures @newfresh !old(has(m.tagLookup, tag)) ==> fresh(result)
 //@   ensures @others forall t Tag :: t != tag ==> (has(m.tagLookup, t) <==> old(has(m.tagLookup, t))) && m.tagLookup[t] == old(m.tagLookup[t])
-//@   ensures @order fmorder(m)
+//@   ensures @order old(fmorder(m)) ==> fmorder(m)
 //@   ensures @same m.tagLookup == old(m.tagLookup) && m.rwLock == old(m.rwLock) && m.compare == old(m.compare)
 //@   ensures @tagsarr (arr(m.tags) == old(arr(m.tags)) || (fresh(m.tags) && allocated(m.tags))) && (arr(m.tags) == 0 ==> m.tags == old(m.tags))
 
@@ -248,15 +250,15 @@ package quickfix
 //@   pure
 
 //@ func (m *FieldMap) SetBytes [C10]
-//@   requires fmwf(m)
+//@   requires fmsafe(m)
 //@   modifies m.tags, m.tags[*], m.tagLookup[*], m.tagLookup[tag][0].*, fresh E.uint8, fresh H.quickfix.TagValue.*, fresh E.quickfix.Tag
 //@   ensures @set onefield(m, tag, value)
 //@   ensures @single (!old(has(m.tagLookup, tag)) || old(len(m.tagLookup[tag])) == 1) ==> len(m.tagLookup[tag]) == 1
 //@   ensures @others otherssame(m, tag)
-//@   ensures @order fmorder(m)
+//@   ensures @order old(fmorder(m)) ==> fmorder(m)
 //@   ensures @ret result == m
 //@   ensures @tagsarr (arr(m.tags) == old(arr(m.tags)) || (fresh(m.tags) && allocated(m.tags))) && (arr(m.tags) == 0 ==> m.tags == old(m.tags))
-//@   ensures @wf fmwf(m) && m.compare == old(m.compare)
+//@   ensures @wf fmsafe(m) && (old(fmorder(m)) ==> fmwf(m)) && m.compare == old(m.compare)
 
 // replacing one cell changes the count by (new cell == t) - (old cell == t)
 //@ lemma cntTag_upd [C10]: induction n: forall n int, r1 introw, r2 introw, p int, j int, t Tag :: (p <= j && j < p+n && (forall q :: p <= q && q < p+n && q != j ==> rowat(r1, q) == rowat(r2, q))) ==> cntTag(r2, p, n, t) == cntTag(r1, p, n, t) - (rowat(r1, j) == t ? 1 : 0) + (rowat(r2, j) == t ? 1 : 0)
@@ -440,49 +442,49 @@ package quickfix
 
 // ---- field_map.go: typed setters, group setter, copy ------------------------------------------
 //@ func (m *FieldMap) SetInt [C10]
-//@   requires fmwf(m)
+//@   requires fmsafe(m)
 //@   modifies m.tags, m.tags[*], m.tagLookup[*], m.tagLookup[tag][0].*, fresh E.uint8, fresh H.quickfix.TagValue.*, fresh E.quickfix.Tag, fresh P.quickfix.FIXInt, fresh P.quickfix.FIXBoolean, fresh P.quickfix.FIXString
 //@   ensures @set has(m.tagLookup, tag) && m.tagLookup[tag][0].tag == tag && canonint(m.tagLookup[tag][0].value) && intval(m.tagLookup[tag][0].value) == value
 //@   ensures @bytes tvwf(m.tagLookup[tag][0].bytes, tag, m.tagLookup[tag][0].value, len(m.tagLookup[tag][0].bytes) - len(m.tagLookup[tag][0].value) - 2)
 //@   ensures @others otherssame(m, tag)
-//@   ensures @order fmorder(m)
+//@   ensures @order old(fmorder(m)) ==> fmorder(m)
 //@   ensures @tagsarr (arr(m.tags) == old(arr(m.tags)) || (fresh(m.tags) && allocated(m.tags))) && (arr(m.tags) == 0 ==> m.tags == old(m.tags))
-//@   ensures @wf fmwf(m) && m.compare == old(m.compare)
+//@   ensures @wf fmsafe(m) && (old(fmorder(m)) ==> fmwf(m)) && m.compare == old(m.compare)
 
 //@ func (m *FieldMap) SetString [C10]
-//@   requires fmwf(m)
+//@   requires fmsafe(m)
 //@   modifies m.tags, m.tags[*], m.tagLookup[*], m.tagLookup[tag][0].*, fresh E.uint8, fresh H.quickfix.TagValue.*, fresh E.quickfix.Tag, fresh P.quickfix.FIXInt, fresh P.quickfix.FIXBoolean, fresh P.quickfix.FIXString
 //@   ensures @set has(m.tagLookup, tag) && m.tagLookup[tag][0].tag == tag && len(m.tagLookup[tag][0].value) == len(value) && (forall i :: 0 <= i && i < len(value) ==> m.tagLookup[tag][0].value[i] == value[i])
 //@   ensures @bytes tvwf(m.tagLookup[tag][0].bytes, tag, m.tagLookup[tag][0].value, len(m.tagLookup[tag][0].bytes) - len(m.tagLookup[tag][0].value) - 2)
 //@   ensures @others otherssame(m, tag)
-//@   ensures @order fmorder(m)
+//@   ensures @order old(fmorder(m)) ==> fmorder(m)
 //@   ensures @tagsarr (arr(m.tags) == old(arr(m.tags)) || (fresh(m.tags) && allocated(m.tags))) && (arr(m.tags) == 0 ==> m.tags == old(m.tags))
-//@   ensures @wf fmwf(m) && m.compare == old(m.compare)
+//@   ensures @wf fmsafe(m) && (old(fmorder(m)) ==> fmwf(m)) && m.compare == old(m.compare)
 
 //@ func (m *FieldMap) SetBool [C10]
-//@   requires fmwf(m)
+//@   requires fmsafe(m)
 //@   modifies m.tags, m.tags[*], m.tagLookup[*], m.tagLookup[tag][0].*, fresh E.uint8, fresh H.quickfix.TagValue.*, fresh E.quickfix.Tag, fresh P.quickfix.FIXInt, fresh P.quickfix.FIXBoolean, fresh P.quickfix.FIXString
 //@   ensures @set has(m.tagLookup, tag) && m.tagLookup[tag][0].tag == tag && len(m.tagLookup[tag][0].value) == 1 && m.tagLookup[tag][0].value[0] == (value ? 89 : 78)
 //@   ensures @others otherssame(m, tag)
-//@   ensures @order fmorder(m)
+//@   ensures @order old(fmorder(m)) ==> fmorder(m)
 //@   ensures @tagsarr (arr(m.tags) == old(arr(m.tags)) || (fresh(m.tags) && allocated(m.tags))) && (arr(m.tags) == 0 ==> m.tags == old(m.tags))
-//@   ensures @wf fmwf(m) && m.compare == old(m.compare)
+//@   ensures @wf fmsafe(m) && (old(fmorder(m)) ==> fmwf(m)) && m.compare == old(m.compare)
 
 //@ func (m *FieldMap) SetField [C10]
 //@   inline
-//@   requires fmwf(m) && field != nil
+//@   requires fmsafe(m) && field != nil
 //@   ensures @set has(m.tagLookup, tag) && m.tagLookup[tag][0].tag == tag
-//@   ensures @wf fmwf(m)
+//@   ensures @wf fmsafe(m) && (old(fmorder(m)) ==> fmwf(m))
 //@   ensures @others otherssame(m, tag)
 //@   ensures @tagsarr (arr(m.tags) == old(arr(m.tags)) || (fresh(m.tags) && allocated(m.tags))) && (arr(m.tags) == 0 ==> m.tags == old(m.tags))
 //@   modifies m.tags, m.tags[*], m.tagLookup[*], m.tagLookup[tag][0].*, fresh E.uint8, fresh H.quickfix.TagValue.*, fresh E.quickfix.Tag
 
 //@ func (m *FieldMap) Set [C10]
-//@   requires fmwf(m) && field != nil
+//@   requires fmsafe(m) && field != nil
 //@   modifies *
 
 //@ func (m *FieldMap) SetGroup [C10,C13]
-//@   requires fmwf(m) && field != nil
+//@   requires fmsafe(m) && field != nil
 //@   modifies *
 
 //@ func (m *FieldMap) CopyInto [C10]
@@ -689,12 +691,14 @@ package quickfix
 // ---- message construction and serialisation (safety, frames, invariant preservation) --------------------
 // the three order lists do not share a backing array
 //@ spec tagssep(msg *Message) bool = (arr(msg.Header.tags) == 0 || (arr(msg.Header.tags) != arr(msg.Body.tags) && arr(msg.Header.tags) != arr(msg.Trailer.tags))) && (arr(msg.Body.tags) == 0 || arr(msg.Body.tags) != arr(msg.Trailer.tags)) && (arr(msg.Header.tags) == 0 ? len(msg.Header.tags) == 0 : allocated(msg.Header.tags)) && (arr(msg.Body.tags) == 0 ? len(msg.Body.tags) == 0 : allocated(msg.Body.tags)) && (arr(msg.Trailer.tags) == 0 ? len(msg.Trailer.tags) == 0 : allocated(msg.Trailer.tags))
+// msgsafe: what the session layer needs of a message it builds or receives (accessors are memory safe, frames apply)
+//@ spec msgsafe(msg *Message) bool = msg != nil && mapsok(msg) && fmvals(msg.Header.FieldMap) && fmvals(msg.Body.FieldMap) && fmvals(msg.Trailer.FieldMap) && msg.Header.compare != nil && msg.Body.compare != nil && msg.Trailer.compare != nil
 //@ spec msgwf(msg *Message) bool = msg != nil && mapsok(msg) && tagssep(msg) && fmwf(msg.Header.FieldMap) && fmwf(msg.Body.FieldMap) && fmwf(msg.Trailer.FieldMap) && msg.Header.compare != nil && msg.Body.compare != nil && msg.Trailer.compare != nil
 
 //@ func NewMessage [C09,C10]
 //@   typedheap
 //@   ensures @fresh result != nil && fresh(result)
-//@   ensures @wf msgwf(result)
+//@   ensures @wf msgwf(result) && msgsafe(result)
 //@   ensures @empty (forall t Tag :: !has(result.Header.tagLookup, t) && !has(result.Body.tagLookup, t) && !has(result.Trailer.tagLookup, t)) && result.rawMessage == nil && result.fields == nil
 //@   modifies fresh H.quickfix.Message.*, fresh H.quickfix.FieldMap.*, fresh H.quickfix.tagSort.*, fresh H.sync.RWMutex.*, fresh H.sync.Mutex.*, fresh MH.quickfix.Tag.quickfix.field, fresh H.time.Time.*
 
@@ -738,28 +742,30 @@ package quickfix
 
 // cook sets BodyLength (9) in the header and CheckSum (10) in the trailer and leaves every other field alone
 //@ func (m *Message) cook [C10]
-//@   requires msgwf(m)
-//@   ensures @maps mapsok(m) && m.Header.compare != nil && m.Body.compare != nil && m.Trailer.compare != nil
-//@   ensures @tagsarr (arr(m.Header.tags) == old(arr(m.Header.tags)) || (fresh(m.Header.tags) && allocated(m.Header.tags))) && (arr(m.Trailer.tags) == old(arr(m.Trailer.tags)) || (fresh(m.Trailer.tags) && allocated(m.Trailer.tags))) && m.Body.tags == old(m.Body.tags)
-//@   ensures @sep tagssep(m)
-//@   ensures @wfH fmwf(m.Header.FieldMap)
-//@   ensures @wfB fmwf(m.Body.FieldMap)
-//@   ensures @wfT fmwf(m.Trailer.FieldMap)
-//@   ensures @wf msgwf(m)
+//@   requires msgsafe(m)
+//@   ensures @safe msgsafe(m)
+//@   ensures @tagsarr (arr(m.Header.tags) == old(arr(m.Header.tags)) || (fresh(m.Header.tags) && allocated(m.Header.tags))) && (arr(m.Header.tags) == 0 ==> m.Header.tags == old(m.Header.tags)) && (arr(m.Trailer.tags) == old(arr(m.Trailer.tags)) || (fresh(m.Trailer.tags) && allocated(m.Trailer.tags))) && (arr(m.Trailer.tags) == 0 ==> m.Trailer.tags == old(m.Trailer.tags)) && m.Body.tags == old(m.Body.tags)
+//@   ensures @sep old(msgwf(m)) ==> tagssep(m)
+//@   ensures @wfH old(msgwf(m)) ==> fmorder(m.Header.FieldMap)
+//@   ensures @wfB old(msgwf(m)) ==> fmorder(m.Body.FieldMap)
+//@   ensures @wfT old(msgwf(m)) ==> fmorder(m.Trailer.FieldMap)
+//@   ensures @wf old(msgwf(m)) ==> msgwf(m)
 //@   ensures @set fhas(m.Header.FieldMap, 9) && fhas(m.Trailer.FieldMap, 10)
 //@   ensures @header forall t Tag :: t != 9 ==> (fhas(m.Header.FieldMap, t) <==> old(fhas(m.Header.FieldMap, t))) && m.Header.tagLookup[t] == old(m.Header.tagLookup[t])
 //@   ensures @trailer forall t Tag :: t != 10 ==> (fhas(m.Trailer.FieldMap, t) <==> old(fhas(m.Trailer.FieldMap, t))) && m.Trailer.tagLookup[t] == old(m.Trailer.tagLookup[t])
-//@   modifies m.Header.tags, m.Header.tags[*], m.Header.tagLookup[*], m.Header.tagLookup[9][0].*, m.Trailer.tags, m.Trailer.tags[*], m.Trailer.tagLookup[*], m.Trailer.tagLookup[10][0].*, fresh E.uint8, fresh H.quickfix.TagValue.*, fresh E.quickfix.Tag
+//@   modifies m.Header.tags, m.Header.tags[*], m.Header.tagLookup[*], m.Header.tagLookup[9][0].*, m.Trailer.tags, m.Trailer.tags[*], m.Trailer.tagLookup[*], m.Trailer.tagLookup[10][0].*, fresh E.uint8, fresh H.quickfix.TagValue.*, fresh E.quickfix.Tag, fresh P.quickfix.FIXInt
 
 //@ func (m *Message) build [C09,C10]
-//@   requires msgwf(m)
-//@   ensures @wf msgwf(m)
+//@   requires msgsafe(m)
+//@   ensures @safe msgsafe(m)
+//@   ensures @wf old(msgwf(m)) ==> msgwf(m)
 //@   ensures @set fhas(m.Header.FieldMap, 9) && fhas(m.Trailer.FieldMap, 10)
 //@   ensures @header forall t Tag :: t != 9 ==> (fhas(m.Header.FieldMap, t) <==> old(fhas(m.Header.FieldMap, t))) && m.Header.tagLookup[t] == old(m.Header.tagLookup[t])
 //@   ensures @body forall t Tag :: (fhas(m.Body.FieldMap, t) <==> old(fhas(m.Body.FieldMap, t))) && m.Body.tagLookup[t] == old(m.Body.tagLookup[t])
-//@   modifies m.Header.tags, m.Header.tags[*], m.Header.tagLookup[*], m.Header.tagLookup[9][0].*, m.Trailer.tags, m.Trailer.tags[*], m.Trailer.tagLookup[*], m.Trailer.tagLookup[10][0].*, m.Body.tags[*], fresh E.uint8, fresh H.quickfix.TagValue.*, fresh E.quickfix.Tag, fresh H.bytes.Buffer.*
+//@   modifies m.Header.tags, heap E.quickfix.Tag, m.Header.tagLookup[*], m.Header.tagLookup[9][0].*, m.Trailer.tags, m.Trailer.tagLookup[*], m.Trailer.tagLookup[10][0].*, fresh E.uint8, fresh H.quickfix.TagValue.*, fresh H.bytes.Buffer.*, fresh P.quickfix.FIXInt
 
 //@ func (m *Message) buildWithBodyBytes [C03,C09,C10]
-//@   requires msgwf(m)
-//@   ensures @wf msgwf(m)
-//@   modifies m.Header.tags, m.Header.tags[*], m.Header.tagLookup[*], m.Header.tagLookup[9][0].*, m.Trailer.tags, m.Trailer.tags[*], m.Trailer.tagLookup[*], m.Trailer.tagLookup[10][0].*, fresh E.uint8, fresh H.quickfix.TagValue.*, fresh E.quickfix.Tag, fresh H.bytes.Buffer.*
+//@   requires msgsafe(m)
+//@   ensures @safe msgsafe(m)
+//@   ensures @wf old(msgwf(m)) ==> msgwf(m)
+//@   modifies m.Header.tags, heap E.quickfix.Tag, m.Header.tagLookup[*], m.Header.tagLookup[9][0].*, m.Trailer.tags, m.Trailer.tagLookup[*], m.Trailer.tagLookup[10][0].*, fresh E.uint8, fresh H.quickfix.TagValue.*, fresh H.bytes.Buffer.*, fresh P.quickfix.FIXInt
